@@ -7,6 +7,7 @@ CONSTANTS
   MutClasses <- MutAll
   PreOps <- PreAll
   SkipIfSignedAddr = FALSE
-INVARIANTS Sound VerdictPure MutatedRejected SameSigners
+  AddrBySigCount = FALSE
+INVARIANTS Sound VerdictPure MutatedRejected SameSigners MalformedNeverCounts SignersAreScriptAccounts
 ACTION_CONSTRAINT Edge
 CHECK_DEADLOCK FALSE
